@@ -92,6 +92,7 @@ def _numbered(sim, d, op, rel, p, before_raising=None):
             d['in_sandbox'] = any(cwd == sb or cwd.startswith(sb + os.sep) for sb in sim.sandboxes)
         except OSError:
             d['in_sandbox'] = True  # the current directory has been removed (by a child): only possible inside the sandbox
+            d['cwd_gone'] = True
         d['seq'] = sim.ev('diskfault', op=op, path=rel, errno=d['errno'], n=d['seen'])
         sim.counts['diskfault_fired'] += 1
         if before_raising is not None:
